@@ -106,7 +106,15 @@ const PORTS: &[&str] = &["local", "remote"];
 
 /// Installs the H0 event sink: hook events become trace lines `{"ev":"h_<name>", ...}`.
 pub fn install_hook_sink() {
-    remoc::verif::set_sink(Some(Box::new(|name, fields| {
+    install_hook_sink_for(&[""])
+}
+
+/// Records only hook events whose name starts with one of the prefixes (none = no hook events).
+pub fn install_hook_sink_for(prefixes: &'static [&'static str]) {
+    remoc::verif::set_sink(Some(Box::new(move |name, fields| {
+        if !prefixes.iter().any(|p| name.starts_with(p)) {
+            return;
+        }
         let mut g = TRACER.lock().unwrap();
         let Some(t) = g.as_mut() else { return };
         let mut m = serde_json::Map::new();
@@ -602,7 +610,28 @@ pub async fn wait_tasks<T>(handles: &mut Vec<tokio::task::JoinHandle<T>>, links:
         } else {
             quiet += 1;
             if quiet > idle {
-                return handles.len();
+                // Streamed (de)serialization runs on blocking threads in real time: before concluding that
+                // nothing will ever happen, give those threads a real-time grace period.
+                let mut progressed = false;
+                let grace_ms: u64 = std::env::var("VERIF_GRACE_MS").ok().and_then(|v| v.parse().ok()).unwrap_or(1500);
+                let t0 = std::time::Instant::now();
+                while (t0.elapsed().as_millis() as u64) < grace_ms {
+                    std::thread::sleep(std::time::Duration::from_millis(1));
+                    for _ in 0..50 {
+                        tokio::task::yield_now().await;
+                    }
+                    let before = handles.len();
+                    handles.retain(|h| !h.is_finished());
+                    if trace_len() != last || links.iter().any(|l| l.pending() > 0) || handles.len() != before {
+                        progressed = true;
+                        break;
+                    }
+                }
+                if !progressed {
+                    return handles.len();
+                }
+                last = trace_len();
+                quiet = 0;
             }
         }
     }
